@@ -133,12 +133,16 @@ func c02(tier string) int {
 	lb := wh.LogCfg{Origin: logB(), Key: u.K2}
 	lc := wh.LogCfg{Origin: logC(), Key: u.K1} // same key as A, other origin
 	ld := wh.LogCfg{Origin: "verif.example/elsewhere", Key: u.K2}
+	// Same key NAME as log A, different key material (so a different key hash).
+	k1b := uni.NewKey(u.K1.Name, ev.Seed()+7919)
+	le := wh.LogCfg{Origin: "verif.example/log-e", Key: k1b}
 	configs := map[string][]wh.LogCfg{
-		"1 log":                       {la},
-		"2 logs distinct keys":        {la, lb},
-		"3 logs, two sharing one key": {la, lc, lb},
+		"1 log":                                 {la},
+		"2 logs distinct keys":                  {la, lb},
+		"3 logs, two sharing one key":           {la, lc, lb},
+		"2 logs, same key name, different keys": {la, le},
 	}
-	confNames := []string{"1 log", "2 logs distinct keys", "3 logs, two sharing one key"}
+	confNames := []string{"1 log", "2 logs distinct keys", "3 logs, two sharing one key", "2 logs, same key name, different keys"}
 	subst := []byte{0x00, '\n', ' ', 0x7f, 0x80, 0xff, '+', 0xe2}
 	stores := []string{"mem"}
 	if tier == "thorough" {
@@ -269,6 +273,21 @@ func c02(tier string) int {
 					ids = append(ids, l.ID())
 				}
 				ids = append(ids, ld.ID(), "0000", "", uni.ID("verif.example/never"))
+				// Impostors: the origin of a configured log, signed only with a key
+				// that is NOT configured for it (every other configured key, the
+				// second universe key and the same-name key), under that log's ID.
+				for _, t := range logs {
+					for _, k := range []uni.Key{u.K1, u.K2, k1b} {
+						if k.VKey == t.Key.VKey {
+							continue
+						}
+						src := wh.LogCfg{Origin: t.Origin, Key: k}
+						for _, n := range []int{0, 2, 4, 6} {
+							cp, _ := gen.Get(src, u.Main, n, "plain")
+							cases = append(cases, c02Case{Label: fmt.Sprintf("cross-log: impostor: origin %s@%d signed only by key %s (not that log's key) under its own ID", t.Origin, n, wh.KeyID(k.Verif)), ID: t.ID(), Old: old, CP: cp, Proof: u.Main.Proof(int(old), n)})
+						}
+					}
+				}
 				for _, src := range all {
 					for _, n := range []int{0, 2, 4, 6} {
 						for _, shape := range []string{"plain", "otherlog"} {
@@ -349,7 +368,7 @@ func c02(tier string) int {
 	}
 	run.Set("evaluations", evals)
 	run.Set("exhaustive", true)
-	run.Set("rule", "for 3 configurations (1 log; 2 logs distinct keys; 3 logs of which two share one key under different origins) x {empty witness, every log holding a checkpoint} x 4 seed checkpoints (plain, extension lines, extra signature by another configured log, already cosigned): the complete byte-level 1-edit neighbourhood (every prefix, every single-bit flip, 8 boundary substitutions and deletion at every byte), 25 line-level / signature-block edits, and every checkpoint of every log (4 sizes x 2 shapes, incl. a log configured only elsewhere) submitted under every other configured ID and under unknown IDs. Oracle one-directional: accepted or state changed => stored text is in the set of texts the harness signed with the key configured for that ID and starts with that ID's origin; and for inputs the harness decides (crypto/ed25519 directly) carry no valid signature of that key / unsigned text / wrong origin: refused, state unchanged. distinct_nontrivial = distinct (configuration, state, mutated input)")
+	run.Set("rule", "for 4 configurations (1 log; 2 logs distinct keys; 3 logs of which two share one key under different origins; 2 logs whose keys have the same name but different key material) x {empty witness, every log holding a checkpoint} x 4 seed checkpoints (plain, extension lines, extra signature by another configured log, already cosigned): the complete byte-level 1-edit neighbourhood (every prefix, every single-bit flip, 8 boundary substitutions and deletion at every byte), 25 line-level / signature-block edits, and every checkpoint of every log (4 sizes x 2 shapes, incl. a log configured only elsewhere) submitted under every other configured ID and under unknown IDs, and every configured origin signed only by each key that is not its own (impostors) under its own ID. Oracle one-directional: accepted or state changed => stored text is in the set of texts the harness signed with the key configured for that ID and starts with that ID's origin; and for inputs the harness decides (crypto/ed25519 directly) carry no valid signature of that key / unsigned text / wrong origin: refused, state unchanged. distinct_nontrivial = distinct (configuration, state, mutated input)")
 	run.Assumption("Ed25519 unforgeability: the set of texts the harness signed is the ground truth for authenticity")
 	return run.Finish()
 }
